@@ -32,6 +32,10 @@ class Key:
 
     def __init__(self, n: int):
         secexp = 1 + H('verif-key', n) % (_ORDER - 2)
+        if n == 11:
+            # key 11 is the mirror image of key 10 (private key order - d): same x coordinate, opposite y - two different
+            # keys with two different owners that agree in the first 32 bytes of their encoding
+            secexp = _ORDER - (1 + H('verif-key', 10) % (_ORDER - 2))
         self.sk = ecdsa.SigningKey.from_secret_exponent(secexp, curve=ecdsa.SECP256k1)
         self.pub = self.sk.verifying_key.to_string()
         self.priv = self.sk.to_string()
